@@ -835,7 +835,15 @@ inductive Op
   | add (name dtype : Str) (vals : List (List Int)) (c : Option Cal)
   /-- `laser.remove(names)` -/
   | remove (names : List Str)
+  /-- `laser.data = <the same image with its fields in another order>` (every layer of an SRR laser) -/
+  | dataReorder (order : List Str)
   deriving DecidableEq, Repr
+
+/-- position of the field called `n` -/
+def fieldPos (fields : List (Str × Str)) (n : Str) : Option Nat :=
+  match fields.findIdx? fun f => f.1 == n with
+  | some i => some i
+  | none => none
 
 def renameKey (names : List (Str × Str)) (k : Str) : Str := (dictGet names k).getD k
 
@@ -891,6 +899,15 @@ def applyOp (fl : Rat → Rat) (L : Laser) : Op → Except Err Laser
         match dictGet M.cal n with
         | none => throw Err.keyError
         | some _ => pure { M with cal := dictErase M.cal n }) data
+  | .dataReorder order =>
+    match order.mapM (fieldPos L.fields) with
+    | none => throw .unmodelled
+    | some idx =>
+      if order.length ≠ L.fields.length ∨ ¬ order.Nodup then throw .unmodelled
+      else
+        pure { L with
+          fields := idx.filterMap fun i => L.fields[i]?
+          layers := L.layers.map fun l => { l with cells := l.cells.map fun r => idx.filterMap fun i => r[i]? } }
 
 /-- the constructor call the harness makes: `Laser(data, calibration, config, info)` or `SRRLaser(..)` -/
 def construct' (fl : Rat → Rat) (kind : Kind) (fields : List (Str × Str)) (layers : List Layer)
